@@ -21,7 +21,7 @@ CHECKS = {
     "C06": "engine", "C07": "engine", "C08": "engine", "C09": "engine", "C13": "engine",
     "C01": "engine", "C02": "engine", "C03": "engine", "C04": "engine", "C05": "engine", "C14": "engine", "C15": "engine",
     "C41": "engine", "C16": "engine", "C36": "engine",
-    "C33": "webpush", "C32": "access", "C19": "analyzer", "C20": "analyzer", "C40": "tickatomic",
+    "C33": "webpush", "C32": "access", "C19": "analyzer", "C20": "analyzer", "C40": "tickatomic", "C27": "runner",
 }
 
 MC = "model_checking"
@@ -31,6 +31,19 @@ EXP = "exploration"
 INTERP_TRUST = "Trusted: the harness-side observation (property descriptors on ast.Node flags, wrappers around PInterpreter.tick / _is_awaiting_threshold / _try_activate_node and Tracking._add_record_state, none of them in /repo), exact rational re-evaluation of clocks and conditions from the values every observer reads, virtual time. The monitor state is the implementation's flags; the clauses relate them to the program structure."
 
 CLAIMS = {
+    "C27": (MC, "TLA+ spec Runner.tla (NoLoss, NoStranded, AtMostOnce, StopImpliesData; TLC over all productions, timer steps and "
+                "network faults; the as-coded variant that sends live messages while catching up is refuted) + monitor "
+                "RunnerTrace.tla on executions of the real EngineRunner under a virtual-time asyncio loop",
+            "500 (thorough 6250) scripted engine lives (1-3 runs with data ticks and stops) x 0-3 network outages of 0.05-25 s "
+            "laid anywhere over them, plus scripts in which the engine stops its run or produces data exactly when the runner "
+            "enters Failed / Disconnected / Reconnecting / CatchingUp; the runner's timer task, buffer and steady-state tasks and "
+            "its random reconnect back-off run for real, sends take scripted delays so that several are in flight: every message "
+            "reaches the aggregator, none is left in the buffer in a steady state or at the end, a message is resent only after a "
+            "failed attempt, keeps its sequence number, sequence numbers are distinct, and a run's buffered data arrives before "
+            "its run-stopped notification.",
+            "Trusted: harness/vloop.py (select never blocks, it advances the clock), the scripted dispatcher (real "
+            "EngineDispatcher sequence numbering; a request reaches the aggregator when send is called, a connection loss "
+            "interrupts the wait for the response), stand-in messages from a scripted message builder.", "7 C27"),
     "C40": (MC, "TLA+ spec TickAtomic.tla (tick thread over the scheduling points of Engine.tick, request thread with / without the "
                 "engine lock; TLC verifies Atomic with the lock and finds the race without it) + two-thread experiments on the real "
                 "Engine at every scheduling point (hooks cb22a867), judged by TickAtomicTrace.tla",
